@@ -319,7 +319,8 @@ pub fn suite_run(ctx: &mut Ctx, suite: &str, n: u64) {
             break;
         }
         let mut cr = Prng::new(cs);
-        let case = gen_case(&mut cr, &prof);
+        // now and then a case beyond the usual size bounds (64+ columns, `bits(64, …)`)
+        let case = if idx % 97 == 41 { gen_wide_case(&mut cr, &prof) } else { gen_case(&mut cr, &prof) };
         let printed = print(&case.prog, &mut Prng::new(case.style_seed), &case.style);
         judge_run_case(ctx, suite, cs, &case, &printed.text, Some(&printed));
     }
@@ -1191,6 +1192,141 @@ pub fn suite_lex(ctx: &mut Ctx, suite: &str, n: u64) {
     }
 }
 
+/// literals at the edge of 64 bits in every radix and spelling: the verdict (and the parse) must not depend on the
+/// radix (C20), values from 2^63 on are rejected in every radix (C12), and the model agrees on each text
+pub fn suite_radix_edge(ctx: &mut Ctx, suite: &str) {
+    if ctx.only_suite.as_deref().map(|s| s != suite).unwrap_or(false) {
+        return;
+    }
+    let prop = ctx.prop.clone();
+    let values: [u128; 9] = [0, 1, (1u128 << 62) + 3, (1u128 << 63) - 1, 1u128 << 63, (1u128 << 63) + 1, (1u128 << 64) - 1, 1u128 << 64, (1u128 << 64) + 5];
+    let mut n = 0;
+    for (vi, v) in values.iter().enumerate() {
+        let spellings = vec![
+            format!("{v}"),
+            format!("0x{v:x}"),
+            format!("0X{v:X}"),
+            format!("0x00{v:x}"),
+            format!("0b{v:b}"),
+            format!("0B{v:b}"),
+            format!("0{v:o}"),
+            format!("000{v:o}"),
+        ];
+        for (ci, ctxt) in ["A\n{}\n", "A\n({})\n", "A\nlet a = {};\n(a)\n", "A\nloop(i, {})\n1\nend loop\n", "A\n(1 + {} * 1)\n"].iter().enumerate() {
+            let mut first: Option<(String, String)> = None;
+            for sp in &spellings {
+                let src = ctxt.replace("\\n", "\n").replace("{}", sp);
+                ctx.tick(&src);
+                let (il, _) = imp::parse_line(&src);
+                let m = ask_parse(ctx, &src);
+                ctx.report.evaluations += 1;
+                ctx.report.distinct.insert(fnv(&src));
+                ctx.report.nontrivial.insert(fnv(&src));
+                n += 1;
+                let cs = (vi * 100 + ci) as u64;
+                let il_v = vec![il.clone()];
+                if project(&prop, &il_v) != project(&prop, &m) && project("C12", &il_v) != project("C12", &m) {
+                    add_finding(ctx, "model", suite, cs, first_diff(&project("C12", &il_v), &project("C12", &m)), format!("{src:?}"), &il_v, &m);
+                }
+                let verdict = il.split(' ').take(2).collect::<Vec<_>>().join(" ");
+                // what the property texts settle: a literal that fits is a literal (C08), one that does not fit in 64 bits
+                // is rejected (C12); from 2^63 to 2^64-1 only the independence of the radix is demanded (C20) — crate and
+                // model reject those, which the comparison with the model above covers
+                let want = if *v < (1u128 << 63) { Some("parse ok") } else if *v >= (1u128 << 64) { Some("parse err") } else { None };
+                if let Some(want) = want {
+                    if verdict != want {
+                        add_finding(ctx, "oracle", suite, cs, format!("the literal {sp} (value {v}) gives `{verdict}`, should be `{want}`"), format!("{src:?}"), &il_v, &m);
+                    }
+                }
+                match &first {
+                    None => first = Some((sp.clone(), il.clone())),
+                    Some((sp0, il0)) => {
+                        // the same number in another radix: the same parse (the dump holds values, not spellings)
+                        let v0 = il0.split(' ').take(2).collect::<Vec<_>>().join(" ");
+                        if v0 != verdict {
+                            add_finding(ctx, "oracle", suite, cs, format!("{sp0} and {sp} are the same number but one is accepted and the other rejected"), format!("{src:?}"), &il_v, &[il0.clone()]);
+                        } else if verdict == "parse ok" && strip_spans(il0) != strip_spans(&il) {
+                            add_finding(ctx, "oracle", suite, cs, format!("{sp0} and {sp} are the same number but parse differently"), format!("{src:?}"), &il_v, &[il0.clone()]);
+                        }
+                    }
+                }
+            }
+        }
+    }
+    ctx.report.exhaustive.push(format!("{n} texts: 9 values around 2^63 and 2^64 in 8 spellings (decimal, hex in both cases and with leading zeros, binary, octal) in 5 contexts"));
+}
+
+fn strip_spans(l: &str) -> String {
+    // byte offsets differ with the length of the spelling; drop everything that looks like `(s e)` / `s..e`
+    let mut out = String::new();
+    let mut depth = 0;
+    for c in l.chars() {
+        match c {
+            '(' => depth += 1,
+            ')' => {
+                if depth > 0 {
+                    depth -= 1;
+                }
+            }
+            _ if depth == 0 && !c.is_ascii_digit() => out.push(c),
+            _ => {}
+        }
+    }
+    out
+}
+
+/// a row far down the file: more than 65 535 blank and comment-only lines above it (C19: the 1-based line of the row,
+/// however many such lines there are; C20: `line` shifts by the number of lines inserted).  Implementation only.
+pub fn suite_big_lines(ctx: &mut Ctx, suite: &str) {
+    use digital_test_runner::{ParsedTestCase, Signal};
+    if ctx.only_suite.as_deref().map(|s| s != suite).unwrap_or(false) {
+        return;
+    }
+    let mut r = Prng::new(ctx.seed ^ 0xb16);
+    let blanks = 65_530 + r.below(5000);
+    let mut src = String::from("A B\n");
+    let mut line = 2usize;
+    let mut want = vec![];
+    for k in 0..blanks {
+        src.push_str(if k % 3 == 0 { "# c\n" } else { "\n" });
+        line += 1;
+    }
+    want.push(line);
+    src.push_str("1 1\n");
+    line += 1;
+    for _ in 0..7 {
+        src.push_str("\n");
+        line += 1;
+    }
+    want.push(line);
+    want.push(line);
+    src.push_str("repeat(2) 0 0\n");
+    let src = src.replace("\\n", "\n");
+    ctx.tick(&format!("{} blank/comment lines, then rows", blanks));
+    ctx.report.evaluations += 1;
+    ctx.report.nontrivial.insert(fnv(&src));
+    ctx.report.distinct.insert(fnv(&src));
+    let got = std::panic::catch_unwind(|| -> Result<Vec<usize>, String> {
+        let p: ParsedTestCase = src.parse().map_err(|e| format!("parse error {e:?}"))?;
+        let tc = p.with_signals(vec![Signal::input("A", 1, 0), Signal::output("B", 1)]).map_err(|e| format!("bind error {e:?}"))?;
+        let it = tc.try_iter_static().map_err(|e| format!("static error {e:?}"))?;
+        let mut v = vec![];
+        for row in it {
+            v.push(row.map_err(|e| format!("row error {e:?}"))?.line);
+        }
+        Ok(v)
+    });
+    let got = match got {
+        Ok(Ok(v)) => format!("{v:?}"),
+        Ok(Err(e)) => e,
+        Err(_) => format!("panic {}", imp::take_panic()),
+    };
+    if got != format!("{want:?}") {
+        add_finding(ctx, "oracle", suite, blanks as u64, format!("rows behind {blanks} blank and comment-only lines report the lines {got}, they are on {want:?}"), format!("header, {blanks} blank/comment lines (every third `# c`), `1 1`, 7 blank lines, `repeat(2) 0 0`"), &[got.clone()], &[]);
+    }
+    ctx.report.exhaustive.push("1 text with more than 65 535 blank and comment-only lines above its rows".to_string());
+}
+
 // ---------------------------------------------------------------------------------------------
 // operators, masks, tables
 
@@ -1678,16 +1814,20 @@ pub fn run_property(ctx: &mut Ctx) {
             suite_text_enum(ctx, "text-enum", if ctx.tier == "thorough" { 4 } else { 3 });
             suite_text_mutants(ctx, "text-mutants", k(2500, 120000));
             suite_text_valid(ctx, "text-valid", k(600, 30000));
+            suite_radix_edge(ctx, "radix-edge");
         }
         "C19" => {
             suite_text_valid(ctx, "text-valid", k(1200, 60000));
             suite_run(ctx, "run", k(600, 30000));
             // tests loaded from a .dig file: lines relative to the start of the test's own source text
             crate::dig::suite_dig(ctx, "dig", k(800, 20000));
+            suite_big_lines(ctx, "big-lines");
         }
         "C20" => {
             suite_layout(ctx, "layout", k(800, 40000));
             suite_lex(ctx, "lex", k(600, 40000));
+            suite_radix_edge(ctx, "radix-edge");
+            suite_big_lines(ctx, "big-lines");
         }
         _ => {
             ctx.report.notes.push(format!("no suite registered for {prop}"));
